@@ -13,7 +13,7 @@ SPEC = streamcheck.StreamSpec(
     cfg=progs.GenConfig(static_durations=True, n_cmds=(4, 36), p_list=0.12, p_sub=0.14),
     n_quick=1200, n_thorough=40000,
     nontrivial=nontrivial,
-    pysem=dict(groups=[], effects=True),
+    pysem=dict(groups=['facade'], effects=True),
     rule='random build programs (all classes, explicit/implicit/foreign relations, nesting, apply/flatten/copy); every '
          'listing is compared with a shadow multiset of the added leaves kept by the harness, checked for causality '
          '(reference listed earlier) and listed a second time; return values of add()/get_last_entry() are asserted; '
